@@ -45,8 +45,12 @@ func famElementwise(g *Gen) {
 		// identical to broadcasting explicitly first
 		bx, _ := g.do(Cmd{Op: OpBroadcast, T: x, Dims: o.Dims})
 		by, _ := g.do(Cmd{Op: OpBroadcast, T: y, Dims: o.Dims})
-		e, _ := g.do(Cmd{Op: OpBin, K: k, T: bx, U: T(by)})
-		g.do(Cmd{Op: OpEquals, T: r, U: T(e)})
+		if g.isT(bx) && g.isT(by) {
+			e, _ := g.do(Cmd{Op: OpBin, K: k, T: bx, U: T(by)})
+			if g.isT(e) {
+				g.do(Cmd{Op: OpEquals, T: r, U: T(e)})
+			}
+		}
 	}
 	// comparisons, elmax/elmin, equals on same-shape operands with ties
 	vals := g.valsGeneral(prod(ds))
@@ -65,6 +69,25 @@ func famElementwise(g *Gen) {
 	}
 	g.do(Cmd{Op: OpEquals, T: c, U: T(d)})
 	g.do(Cmd{Op: OpEquals, T: c, U: T(c)})
+	if g.chance(0.2) {
+		// magnitudes far below any tolerance (subnormals included): the order comparisons are exact there too, and
+		// distinct values that close are still distinct for >, >=, <, <=
+		g.tag("tiny-magnitudes")
+		pool := []float64{0, 1e-250, -1e-250, 3e-300, 1e-300, -2e-310, -1e-310, 5e-324, -5e-324, 1e-241, 2e-241, 1e-239, -1e-239, 4e-26, 5e-26, 3e-30}
+		n := prod(ds)
+		tv := make([]float64, n)
+		tw := make([]float64, n)
+		for i := range tv {
+			tv[i] = pool[g.intn(len(pool))]
+			tw[i] = pool[g.intn(len(pool))]
+		}
+		e := g.leafVals(ds, tv, false)
+		f := g.leafVals(ds, tw, false)
+		for k := 0; k < 8; k++ {
+			g.do(Cmd{Op: OpBin, K: k, T: e, U: T(f)})
+		}
+		g.do(Cmd{Op: OpBin, K: 8 + g.intn(3), T: e, U: T(f)})
+	}
 }
 
 func famBroadcastPairs(g *Gen) {
@@ -112,6 +135,28 @@ func famLinalg(g *Gen) {
 			s1, s2 = []int{2, m, n}, []int{n, k}
 		}
 		g.tag("large-matrices")
+	}
+	if g.chance(0.1) {
+		// entries far below any tolerance against huge ones: every term of the sum of products counts
+		g.tag("tiny-times-huge")
+		tiny := []float64{1e-250, -5e-300, 2e-260, 1e-245, 3}
+		huge := []float64{1e260, -3e270, 1e255, 2e250, 0.5}
+		va := make([]float64, prod(s1))
+		for i := range va {
+			va[i] = tiny[g.intn(len(tiny))]
+		}
+		vb := make([]float64, prod(s2))
+		for i := range vb {
+			vb[i] = huge[g.intn(len(huge))]
+		}
+		ta := g.leafVals(s1, va, false)
+		tb := g.leafVals(s2, vb, false)
+		g.do(Cmd{Op: OpMatMul, T: ta, U: T(tb)})
+		tbt, o := g.do(Cmd{Op: OpTranspose, T: tb})
+		tat, o2 := g.do(Cmd{Op: OpTranspose, T: ta})
+		if o.Kind == "tensor" && o2.Kind == "tensor" && len(s1) == 2 && len(s2) == 2 {
+			g.do(Cmd{Op: OpMatMul, T: tbt, U: T(tat)})
+		}
 	}
 	if g.chance(0.12) {
 		// high ranks and unequal ranks: batch ranks 4..6 against 1..6 (slice growth / capacity effects in the
@@ -169,6 +214,32 @@ func famLinalg(g *Gen) {
 		eye, _ := g.do(Cmd{Op: OpEye, Z: n, Cfg: nil})
 		ai, _ := g.do(Cmd{Op: OpMatMul, T: a, U: T(eye)})
 		g.do(Cmd{Op: OpEquals, T: ai, U: T(a)})
+		if g.chance(0.4) {
+			// matrices DERIVED from an identity (an entry patched, scaled, transposed, sliced in full) are ordinary
+			// matrices: their products are the sums of products of their own entries
+			g.tag("derived-from-identity")
+			var e2 int
+			switch g.intn(4) {
+			case 0:
+				src := g.leafVals([]int{1, 1}, []float64{float64(2 + g.intn(5))}, false)
+				i, j := g.intn(n), g.intn(n)
+				e2, _ = g.do(Cmd{Op: OpPatch, T: eye, Ranges: [][2]int{{i, i + 1}, {j, j + 1}}, U: T(src)})
+			case 1:
+				e2, _ = g.do(Cmd{Op: OpScale, T: eye, A: Dec{3, 0}})
+			case 2:
+				src := g.leafDistinct([]int{n, n}, false, -2, 2)
+				e2, _ = g.do(Cmd{Op: OpPatch, T: eye, Ranges: nil, U: T(src)})
+			default:
+				e2, _ = g.do(Cmd{Op: OpSlice, T: eye, Ranges: nil})
+			}
+			if g.isT(e2) {
+				g.do(Cmd{Op: OpMatMul, T: a, U: T(e2)})
+				at2, _ := g.do(Cmd{Op: OpTranspose, T: a})
+				if g.isT(at2) {
+					g.do(Cmd{Op: OpMatMul, T: e2, U: T(at2)})
+				}
+			}
+		}
 	}
 	// dot
 	l := 1 + g.intn(3)
@@ -211,7 +282,26 @@ func famReduce(g *Gen) {
 		bds := [][]int{{20001}, {16390}, {3, 16385}, {130, 129}, {2, 70, 128}}[g.intn(5)]
 		g.directReduceBig(bds, g.valsDistinct(prod(bds), -3, 3))
 	}
-	if g.chance(0.15) {
+	if g.chance(0.08) {
+		// fibres whose elements are all -Inf (or all +Inf), produced by the library itself (log 0): the maximum of
+		// such a fibre is -Inf, not a finite sentinel
+		g.tag("all-infinite-fibres")
+		z := g.leafVals(ds, make([]float64, prod(ds)), false)
+		inf, _ := g.do(Cmd{Op: OpMath, K: 1, T: z})
+		if g.chance(0.5) {
+			inf, _ = g.do(Cmd{Op: OpScale, T: inf, A: Dec{-1, 0}})
+		}
+		for _, k := range []int{0, 1, 2} {
+			g.do(Cmd{Op: OpReduce, K: k, T: inf})
+			if len(ds) > 0 {
+				g.do(Cmd{Op: OpAlong, K: k, T: inf, Z: g.intn(len(ds))})
+			}
+		}
+	}
+	if g.chance(0.12) && len(ds) >= 2 {
+		a = g.leafVals(ds, g.valsFibreOffsets(ds), false)
+		g.tag("per-fibre-offsets")
+	} else if g.chance(0.15) {
 		a = g.leafVals(ds, g.valsOffset(prod(ds)), false)
 		g.tag("large-offset-values")
 	} else if g.chance(0.3) {
